@@ -344,6 +344,7 @@ def monitors(scn, trace):
         hw_now = set(i for i, st in reported.items() if st == "HWFAILURE")
         # ---- walk the events of this operation in order
         restart_round_seen = set()
+        rounds_before = dict(restart_rounds)
         succeeded_at_stage = set(succeeded)
         for ev in o.raw_events:
             kind = ev[0]
@@ -573,6 +574,16 @@ def monitors(scn, trace):
                 bad("C07", "ends-cancelled",
                     "op %d: cancel requested at op %d, no job is live any more, but the study is still RUNNING"
                     % (k, cancel_requested_at))
+        # C06: a timed-out step with a restart command and budget left is restarted
+        if cancel_requested_at is None or (op["op"] == "cancel"):
+            for i in sorted(timedout_now):
+                if not scn["restart"][i - 1] or i not in o.inflight_before:
+                    continue
+                lim = scn["rlimit"]
+                if (lim == 0 or rounds_before[i] < lim) and i not in restart_round_seen:
+                    bad("C06", "restarted-within-budget",
+                        "op %d: step %d timed out with %d of %s restarts used but its restart script was not "
+                        "submitted (state %s)" % (k, i, rounds_before[i], lim or "unlimited", o.state[i]))
         # C06: restart count column
         for i in range(1, n + 1):
             if o.restarts[i] != restart_rounds[i]:
